@@ -3,12 +3,14 @@
 (which command was run, what it reported). Later logs override earlier ones for the same mutant."""
 import sys, json, re, os, subprocess, datetime
 res = {}
+via = {}
 for lf in sys.argv[1:]:
     for l in open(lf).read().split('\n'):
         m = re.match(r'\s+(MISSED )?((seeded|selftest)/\S+?)(:| *$)(.*)', l)
         if not m:
             continue
         missed, path, rest = m.group(1), m.group(2), m.group(5)
+        via[path] = 'trymutant' if 'trymutant' in os.path.basename(lf) else 'selftest'
         if missed:
             res[path] = ('missed', [])
         elif 'patch failed' in rest:
@@ -31,7 +33,7 @@ for path in sorted(res):
     prop = meta.get('property', path.split('/')[1][:3])
     if os.path.exists(mp) and path.startswith('seeded/'):
         meta['checked'] = {
-            'how': 'applied to a snapshot of /repo through go/packages overlay; `govc selftest -props %s` = the quick check of %s on the changed tree (obligation timeout 10 s); then undone' % (prop, prop),
+            'how': ('applied to a snapshot of /repo through go/packages overlay; `govc selftest -props %s` = the quick check of %s on the changed tree (obligation timeout 10 s); then undone' % (prop, prop)) if via.get(path) != 'trymutant' else ('`tools/trymutant.sh %s %s`: patch applied to /repo\'s working tree, `./check %s quick` run on it (obligation timeout 40 s), patch undone' % (prop, path.split('/')[-1], prop)),
             'result': st, 'failing_obligations': obs[:6],
             'confirmed_independently': 'tools/confirm_seeded.sh: builds, full suite passes with the change, demo fails with it and passes without (confirmed.txt)',
         }
